@@ -621,7 +621,7 @@ fn c16(args: &Args) -> ! {
     let mut rep = Report::new(
         "seqmc",
         "C16",
-        "every sequence of length <=3 (quick) / <=4 (thorough) over {A low entropy, B high entropy, A again, empty} x hint {Yes,No,Detect} for every compression {none,lz4,lzma,zstd} x adder {direct,cached} x packaging {bare, one-file}; the produced bytes are decoded by the independent decoder (own CRC, codec crates) and each content's cluster compression, verbatim bytes / decompressed bytes, address sharing and content count are compared with the property; plus 400 incompressible bytes followed by a run of 0..48 (thorough 96) bytes with hint Yes (stored size below, equal to and above the plain size); plus contents handed over as whole files and as sub-ranges of files (explicit hints, 3 lengths, alone and second); plus non-initial states (clusters 0..1 blobs short of the 4095-blob limit, raw and/or compressed) followed by every sequence of length <=2 over {A, empty} x {Yes, No}; non-trivial = at least one content with hint Yes or No",
+        "every sequence of length <=3 (quick) / <=4 (thorough) over {A low entropy, B high entropy, A again, empty} x hint {Yes,No,Detect} for every compression {none,lz4,lzma,zstd} x adder {direct,cached} x packaging {bare, one-file}; the produced bytes are decoded by the independent decoder (own CRC, codec crates) and each content's cluster compression, verbatim bytes / decompressed bytes, address sharing and content count are compared with the property; plus, under the deduplicating adder, contents equal except for their last byte (10 bytes .. 4 MiB + 70000, memory and file); plus 400 incompressible bytes followed by a run of 0..48 (thorough 96) bytes with hint Yes (stored size below, equal to and above the plain size); plus contents handed over as whole files and as sub-ranges of files (explicit hints, 3 lengths, alone and second); plus non-initial states (clusters 0..1 blobs short of the 4095-blob limit, raw and/or compressed) followed by every sequence of length <=2 over {A, empty} x {Yes, No}; non-trivial = at least one content with hint Yes or No",
     );
     let mut acc = Acc { states: BTreeSet::new(), transitions: BTreeSet::new(), conformed: 0, multi: 0, mixed: 0, widths: BTreeSet::new() };
     if let Some(p) = &args.replay {
@@ -740,6 +740,19 @@ fn c16(args: &Args) -> ! {
                 for src in [Src::Memory, Src::FileWhole] {
                     let big = Item { len, entropy: Entropy::Low, hint, src, tag: 7 };
                     scs.push(Scenario { comp, cached: true, packaging: Packaging::Bare, pre: Pre::none(), items: vec![big.clone(), Item { len: 10, entropy: Entropy::Low, hint, src: Src::Memory, tag: 8 }, big.clone()] });
+                }
+            }
+        }
+    }
+    // the deduplicating adder on contents that are equal except for their last byte (below, at and
+    // above the 4 MiB limit where it switches from buffering to hashing the source in place)
+    for comp in [Comp::None, Comp::Zstd(5)] {
+        for len in [10usize, MIB4 - 1, MIB4, MIB4 + 1, MIB4 + 70_000] {
+            for hint in [Hint::Yes, Hint::No] {
+                for src in [Src::Memory, Src::FileWhole] {
+                    let a = Item { len, entropy: Entropy::LastByte, hint, src, tag: 1 };
+                    let b = Item { len, entropy: Entropy::LastByte, hint, src, tag: 2 };
+                    scs.push(Scenario { comp, cached: true, packaging: Packaging::Bare, pre: Pre::none(), items: vec![a.clone(), b.clone(), a.clone(), b] });
                 }
             }
         }
